@@ -11,6 +11,7 @@ import (
 
 	"github.com/energomonitor/bisquitt/topics"
 
+	"verifharness/memnet"
 	"verifharness/monitors"
 	"verifharness/rt"
 	"verifharness/snref"
@@ -284,6 +285,16 @@ func runTraffic(t *testing.T, c *rt.Case, rng *rand.Rand, o trafficOpts) *GWRun 
 			sync()
 		}
 		if o.EndDisconnect && !s.Ended() {
+			if rng.Intn(4) == 0 {
+				// the client is gone right after its DISCONNECT: the gateway's reply cannot be written
+				say("every later gateway->client write fails")
+				s.SetPlan(func(dir string, p *snref.Pkt, n int) memnet.Action {
+					if dir == world.SNOut {
+						return memnet.Fail
+					}
+					return memnet.Pass
+				})
+			}
 			send(snref.Disconnect())
 		}
 		time.Sleep(time.Second)
